@@ -11,7 +11,7 @@ import (
 
 func genC18Steps(r *Rng, stack []mwSpec, n int) []mwStep {
 	long := "pppppppppppppppppppppppppppppppppppppppppppppppppppppppppppppppp"
-	subs := []string{"a", "b", "c", "d"}
+	subs := []string{"a", "b", "c", "d", ""} // the empty id is an id like any other
 	if r.P(20) {
 		subs = []string{"a", long + "-x", long + "-y", "é"}
 	}
